@@ -1142,7 +1142,7 @@ fn gen_interleaved(r: Rng) -> Vec<Op> {
 fn run_helpers(rep: &mut Report, drv: &mut Driver, args: &Args, replay: Option<&Value>) {
     let policy = CryptoPolicy::danger_test_minimum();
     let mut machines: Vec<SoftMachine> = (0..3).map(|_| soft_machine()).collect();
-    let n = if replay.is_some() { 1 } else { args.cases(400, 4_000) };
+    let n = if replay.is_some() { 1 } else { args.cases(400, 4_000).min(20_000) };
     for i in 0..n {
         let mut r = Rng::for_case(args.seed ^ 0x44aa, i);
         // a token per machine; symbolic form of what its extra key holds
@@ -1273,7 +1273,7 @@ fn run_helpers(rep: &mut Report, drv: &mut Driver, args: &Args, replay: Option<&
 
 // ---------------------------------------------------------------------------------------------
 
-fn compare(rep: &mut Report, drv: &mut Driver, stream: &str, ops: &[Op], out: &CaseOut, model_fail_cap: usize) {
+fn compare(rep: &mut Report, drv: &mut Driver, idx: usize, stream: &str, ops: &[Op], out: &CaseOut, model_fail_cap: usize) {
     let replies = drv.ask_batch(&out.lines);
     for (i, (line, obs)) in out.lines.iter().zip(out.obs.iter()).enumerate() {
         let model = &replies[i];
@@ -1303,7 +1303,7 @@ fn compare(rep: &mut Report, drv: &mut Driver, stream: &str, ops: &[Op], out: &C
             rep.fail(f.clone());
         }
     }
-    if rep.evaluations % 211 == 0 {
+    if [0usize, 2, 5, 40].contains(&idx) {
         rep.sample(json!({"stream": stream, "history": out.lines, "impl": out.obs, "model": replies}));
     }
 }
@@ -1378,11 +1378,29 @@ fn main() {
     if let Some(inp) = &replay {
         cases.push((inp["stream"].as_str().unwrap_or("resolver").to_string(), ops_from(&inp["ops"])));
     } else {
-        let nr = args.cases(260, 2_600);
+        // regression corpus: the witnesses of the defects found while building this check (now
+        // repaired in /repo) and the scenarios of the property text, as fixed histories
+        for (stream, h) in [
+            // an unsealed credential (PBKDF2 / ARGON2ID) of the right or of a never verified password
+            ("resolver", "srv 1 4 1|auth 1 4|authfault bad|selfkind 2|nextcheck|auth 1 4|plant 1 k:PBKDF2:4:0|auth 1 4|plant 1 k:ARGON2ID:7:0|auth 1 7|auth 1 4"),
+            // the row of another machine (real host, soft TPMs) for the right password
+            ("resolver", "srv 1 4 1|auth 1 4|offline|auth 1 4|plant 1 k:TPM_ARGON2ID:4:1|auth 1 4|plant 1 k:TPM_ARGON2ID:4:2|auth 1 4|plant 1 k:TPM_ARGON2ID:4:3|auth 1 4|plant 1 junk|auth 1 4|plant 1 -|auth 1 4"),
+            // server-side change: the former password keeps working offline until the new one is verified online
+            ("resolver", "srv 1 1 1|auth 1 1|srv 1 2 1|auth 1 1|offline|auth 1 1|auth 1 2|nextcheck|inval|auth 1 2|offline|auth 1 1|auth 1 2|auth 1 3"),
+            // removed account: the row is purged on the next refresh, nothing is accepted afterwards
+            ("resolver", "srv 1 5 1|auth 1 5|srv 1 - 0|inval|lookup 1|offline|auth 1 5|clear|auth 1 5"),
+            // cleared cache
+            ("resolver", "srv 1 5 1|auth 1 5|offline|auth 1 5|clear|auth 1 5|nextcheck|auth 1 5|offline|auth 1 5"),
+            // an attempt left open offline while another login verifies a new password online
+            ("interleaved", "srv 1 5 1|auth 1 5|offline|init 0 1|nextcheck|inval|srv 1 6 1|auth 1 6|offline|step 0 5 1|auth 1 5|auth 1 6"),
+        ] {
+            cases.push((stream.to_string(), h.split('|').map(Op::parse).collect()));
+        }
+        let nr = args.cases(220, 2_400).min(3_000);
         for i in 0..nr {
             cases.push(("resolver".into(), gen_case(Rng::for_case(args.seed ^ 0x44, i), args.budget > 1)));
         }
-        let ni = args.cases(60, 600);
+        let ni = args.cases(50, 500).min(800);
         for i in 0..ni {
             cases.push(("interleaved".into(), gen_interleaved(Rng::for_case(args.seed ^ 0x4411, i))));
         }
@@ -1418,7 +1436,7 @@ fn main() {
     }
     let results = std::mem::take(&mut *results.lock().unwrap());
     for (i, out) in &results {
-        compare(&mut rep, &mut drv, &cases[*i].0, &cases[*i].1, out, 20);
+        compare(&mut rep, &mut drv, *i, &cases[*i].0, &cases[*i].1, out, 20);
     }
     rep.model_requests = drv.requests;
     rep.note(format!(
